@@ -51,6 +51,7 @@ type c07env struct {
 	winArmed     int32
 	winTok       onet.TokenID
 	winFn        func()
+	winHook      string
 	winOpened    bool
 }
 
@@ -342,9 +343,10 @@ func c07exec(c *h.Ctx, cs *h.Case) {
 			atomic.AddInt64(&e.flushStarted, 1)
 		case "cpm.done":
 			atomic.AddInt64(&e.flushDone, 1)
-		case "tm.found":
-			// the window of a `window` op: the message has found its tree and is on its way to transmitMux
-			if pm, ok := key.(*onet.ProtocolMsg); ok && pm != nil && pm.To != nil && atomic.LoadInt32(&e.winArmed) == 1 &&
+		case "tm.found", "rt.unregistered":
+			// the window of a `window` op: the message has found its tree and is on its way to transmitMux; of a
+			// `rwindow` op: it has missed its tree, is parked, has found the tree unregistered and is about to register it
+			if pm, ok := key.(*onet.ProtocolMsg); ok && name == e.winHook && pm != nil && pm.To != nil && atomic.LoadInt32(&e.winArmed) == 1 &&
 				pm.To.ID() == e.winTok && atomic.CompareAndSwapInt32(&e.winArmed, 1, 0) {
 				e.winFn()
 			}
@@ -530,7 +532,7 @@ func c07exec(c *h.Ctx, cs *h.Case) {
 		e.mu.Unlock()
 		var err error
 		switch {
-		case len(tk) >= 5 && tk[1] == "window":
+		case len(tk) >= 5 && (tk[1] == "window" || tk[1] == "rwindow"):
 			// `window <to> <from> <body> | <envelope> | …`: the protocol message finds its tree; before it reaches
 			// transmitMux the tree's removal completes (no instance uses it) and the other envelopes are handled
 			// one after the other, each to its end; then the message goes on
@@ -566,11 +568,13 @@ func c07exec(c *h.Ctx, cs *h.Case) {
 			if pm.To != nil {
 				e.winTok = pm.To.ID()
 				e.winFn = func() {
-					if tn == "K" || tn == "Z" || (fix.RecOf(e.toks["fresh"+tn]) != nil && e.ov.VerifInstanceState(e.toks["fresh"+tn]) == "live") {
-						return // an instance uses the tree: its removal is not due
+					if tk[1] == "window" {
+						if tn == "K" || tn == "Z" || (fix.RecOf(e.toks["fresh"+tn]) != nil && e.ov.VerifInstanceState(e.toks["fresh"+tn]) == "live") {
+							return // an instance uses the tree: its removal is not due
+						}
+						e.ov.VerifC06Expire(e.treeID(tn))
 					}
 					e.winOpened = true
-					e.ov.VerifC06Expire(e.treeID(tn))
 					for _, g := range groups {
 						t2, m2, want, _, _ := build(g)
 						if want {
@@ -584,6 +588,10 @@ func c07exec(c *h.Ctx, cs *h.Case) {
 							}
 						}
 					}
+				}
+				e.winHook = "tm.found"
+				if tk[1] == "rwindow" {
+					e.winHook = "rt.unregistered"
 				}
 				atomic.StoreInt32(&e.winArmed, 1)
 			}
@@ -928,6 +936,10 @@ func c07gen(c *h.Ctx, yield func(*h.Case)) {
 		{"c07 proto badprotoU member 1", "c07 resptree U roX good roX 1", "c07 window freshU member 1 | proto freshU member 2", "c07 resptree U roX good roX 1", "c07 proto freshU member m1"},
 		// … the creation fails (no such protocol): the parked message is released all the same; … the answer arrives inside the window
 		{"c07 proto badprotoU member 1", "c07 resptree U roX good roX 1", "c07 window badprotonewU member 1 | proto freshU member m2 | proto badprotoU member 1", "c07 window freshU member 1 | proto freshU stranger 1 | resptree U roX good roX 1 | proto freshU member 2"},
+		// the window of requestTree between IsRegistered and Register: two first messages for one unknown tree, the
+		// second one runs to its end while the first is held; then the answer, inside and outside the window
+		{"c07 rwindow freshU member 1 | proto freshU member 2", "c07 reqtree K 1", "c07 resptree U roX good roX 1"},
+		{"c07 rwindow freshU member m1 | proto badprotoU member 1 | resptree U roX good roX 1 | proto freshU member m2", "c07 proto freshU member 1", "c07 rwindow zero member 1 | proto zero member 1"},
 	} {
 		for _, m := range []string{"direct", "wire-local"} {
 			yield(&h.Case{Class: "corpus", Ops: append([]string{"c07 state idle " + m}, w...)})
@@ -1002,6 +1014,36 @@ func c07gen(c *h.Ctx, yield func(*h.Case)) {
 		}
 		c.Count(fmt.Sprintf("class=window mode=%s inside=%d", m, nb))
 		yield(&h.Case{Class: "window " + m, Ops: ops})
+	}
+	// the same between IsRegistered and Register of a message whose tree (U, or the zero id) is unknown
+	for i := 0; i < c.Pick(24, 600); i++ {
+		m := mode(i)
+		ops := []string{fmt.Sprintf("c07 state %s %s", states[r.Intn(3)], m)}
+		nb := 0
+		for w := 0; w < 1+r.Intn(3); w++ {
+			op := "c07 rwindow " + winA[r.Intn(len(winA))]
+			k := 1 + r.Intn(3)
+			nb += k
+			for j := 0; j < k; j++ {
+				op += " | " + winB[r.Intn(len(winB))]
+			}
+			ops = append(ops, op)
+			for j := 0; j < r.Intn(3); j++ {
+				e := envs[r.Intn(len(envs))]
+				if m != "direct" && e == "c07 config 0" {
+					continue
+				}
+				ops = append(ops, e)
+			}
+			switch r.Intn(3) {
+			case 0:
+				ops = append(ops, "c07 resptree U roX good roX 1")
+			case 1:
+				ops = append(ops, "c07 window "+winA[r.Intn(len(winA))]+" | "+winB[r.Intn(len(winB))])
+			}
+		}
+		c.Count(fmt.Sprintf("class=rwindow mode=%s inside=%d", m, nb))
+		yield(&h.Case{Class: "rwindow " + m, Ops: ops})
 	}
 	for i := 0; i < c.Pick(4, 60); i++ {
 		c.Count("class=rawbytes")
